@@ -18,4 +18,10 @@ TEXT = {
  "C05": dict(level="Monitor on reached boards and on all field variants of their placements: write/parse and parse/write round trips byte for byte against the model's canonical FEN; constructors compared. " + _pos,
              design_ref="DESIGN.md 3/C05", note="trusted base: refmodel::to_fen as the canonical form; clocks limited to 0..9999 as the property states",
              technique="runtime monitoring: round-trip oracle against an independent canonical FEN writer"),
+ "C06": dict(level="Parser/builder monitor: 10^6-10^8 hostile inputs (mutated FENs, one-condition-broken near misses, random bytes, builder sequences) must neither panic nor yield a board violating the listed acceptance conditions (judged by the model on the board read back), and canonical FENs of reached positions must be accepted; checked and release builds. Sampling, not all byte strings.",
+             design_ref="DESIGN.md 3/C06", note="trusted base: refmodel attack test and acceptance predicate; panics caught with catch_unwind, aborts by the supervisor via the write-ahead journal",
+             technique="runtime monitoring: grammar-aware mutation + semantic near-miss fuzzing with a post-parse invariant oracle"),
+ "C10": dict(level="History monitor: 10^5-10^7 seeded and patterned operation histories on the real move iterator are executed in lock-step with a set model of remaining moves and mask; any size report, yield, or final coverage that differs is a violation (shrunk to a minimal op list). Sampling of positions x op sequences, bounded length.",
+             design_ref="DESIGN.md 3/C10 + Appendix A.2", note="trusted base: refmodel legal set + 30-line set model of the iterator contract",
+             technique="runtime monitoring: operation-history checker against an executable sequential model (set of remaining moves)"),
 }
